@@ -395,6 +395,6 @@ var _ = strings.Contains
 func init() {
 	register(&PropDef{ID: "C11", Level: "exploration",
 		Rule:      "full configuration matrix {client, server} x {flow control on, off, legacy (negotiate header stripped both ways)} x {forward, reverse} x 4 shapes with two real endpoints; one-sided revision-zero peers (scripted raw client / raw server) against real endpoints with the option on and off x 4 shapes; every settings message over revision lists {[],[0],[1],[0,1],[1,0],[1,1],[7],[0,7],[7,1]} x windows {0,1,65536,MaxUint32} x stream ids {-1,0,5} x first frame {settings, headers, window_update, EOF, settings twice} x client option; all schedules with <= 2 (quick) / 3 (thorough) deviations at frame granularity; oracle: reference negotiation function + wire facts (settings/window_update presence, protocol_revision) + RPC results + no hang",
-		Globals:   []func(*Scenario, *World, *Exec) []Violation{ProtoMonitor},
+		Globals:   []func(*Scenario, *World, *Exec) []Violation{ProtoMonitor, WinMonitor},
 		Scenarios: c11Scenarios})
 }
